@@ -27,15 +27,27 @@ def check_case(ctx, case):
     rows, k, n = case['rows'], case['k'], case['n']
     s0 = gen.text_of(rows)
     s1 = '\n' * n + ''.join(' ' * k + r + '\n' for r in rows)
-    r0 = ctx.conv(s0)
-    r1 = ctx.conv(s1)
+    sc = case.get('scale')
+    if sc:
+        # a scale setting that is not a multiple of 1/4 (`--scale 1.2`): cell boundaries are no longer exact in f32;
+        # judged in units of the default scale (coordinates divided by scale/8), within the tolerance the property grants
+        u = F(f32(sc)) / 8
+        r0 = ctx.conv(s0, entry=3, scale=sc)
+        r1 = ctx.conv(s1, entry=3, scale=sc)
+    else:
+        u = F(1)
+        r0 = ctx.conv(s0)
+        r1 = ctx.conv(s1)
     if not (r0.ok and r1.ok):
         return 'conversion failed: ' + (r0.fail_text() if not r0.ok else r1.fail_text())
     try:
-        a = Scene(r0.out)
-        b = Scene(r1.out, dx=8 * k, dy=16 * n)
+        a = Scene(r0.out, sc=u)
+        b = Scene(r1.out, dx=8 * k * u, dy=16 * n * u, sc=u)
+        a.W, a.H, b.W, b.H = a.W / u, a.H / u, b.W / u, b.H / u
     except Malformed as e:
         return 'output not parseable: %s' % e
+    if sc:
+        ctx.tag('odd_scale')
     kinds = gen.kinds_in(a)
     tags = ['kind_' + case.get('kind', '?')]
     if kinds & {'circle', 'path', 'g_path', 'g_circle'}:
@@ -43,13 +55,49 @@ def check_case(ctx, case):
     if case.get('kind') == 'diagonal' and len(rows) >= 9:
         tags.append('with_long_diagonal')
     ctx.note(key_of(rows, k, n), k + n > 0, *tags)
-    if (b.W - a.W, b.H - a.H) != (8 * k, 16 * n):
+    if (abs(b.W - a.W - 8 * k) > TOL or abs(b.H - a.H - 16 * n) > TOL) if sc else (b.W - a.W, b.H - a.H) != (8 * k, 16 * n):
         return 'canvas grew by (%s,%s), the drawing moved by (%s,%s)' % (b.W - a.W, b.H - a.H, 8 * k, 16 * n)
     ua, ub = multiset_match(a.els, b.els, TOL)
     if ua or ub:
         return 'rendering changes when moved by %d columns, %d rows: only at origin: %s; only when moved (shifted back): %s' % (
             k, n, [show_el(e) for e in ua[:3]], [show_el(e) for e in ub[:3]])
     return None
+
+
+def f32(x):
+    import struct
+    return struct.unpack('<f', struct.pack('<f', x))[0]
+
+
+ODD_SCALES = [9.6, 5.6, 8.8, 10.4, 2.4, 12.8, 7.2, 33.6]
+
+
+def annotated_shape(rng, circles):
+    """a closed shape with a {tag} or a label on its first interior row: which shape encloses which text is decided by
+    comparing bounds, wherever the drawing sits"""
+    inner = rng.choice(['{a}', '{a,b}', 'hi', '{k9} x', 'p {w}', '{filled}'])
+    inner = ' ' * rng.randint(0, 2) + inner
+    w = len(inner) + rng.randint(0, 3)
+    h = rng.randint(1, 3)
+    q = rng.random()
+    if q < 0.4:
+        rows = [' ' + '_' * w] + ['|' + (inner + ' ' * (w - len(inner)) if y == 0 else ' ' * w) + '|' for y in range(h)] + ['|' + '_' * w + '|']
+    elif q < 0.8:
+        st = gen.BOX_STYLES[rng.choice(list(gen.BOX_STYLES))]
+        rows = gen.box(w, h, inner={0: inner}, **st)
+    else:
+        big = [c for c in circles if len(c) >= 5] or circles
+        c = list(rng.choice(big))
+        m = len(c) // 2
+        row = c[m]
+        body = row.strip()
+        lead = len(row) - len(row.lstrip())
+        tag = '{a}'
+        if len(body) - 2 >= len(tag) + 2 and body[1:-1].strip() == '':
+            gap = len(body) - 2
+            c[m] = ' ' * lead + body[0] + ' ' + tag + ' ' * (gap - 1 - len(tag)) + body[-1]
+        rows = c
+    return rows
 
 
 def run_shard(ctx, shard):
@@ -70,6 +118,8 @@ def run_shard(ctx, shard):
             kind, rows = 'circle', list(rng.choice(circles))
         else:
             kind, rows = gen.diagram(rng, circles, allow_quotes=True, allow_braces=True)
+        if not shard.get('force') and rng.random() < 0.08 or shard.get('force') == 'annotated':
+            kind, rows = 'annotated', annotated_shape(rng, circles)
         if rng.random() < 0.1 and rows:
             # a tab is a blank that occupies one column, wherever it stands
             y = rng.randrange(len(rows))
@@ -80,6 +130,10 @@ def run_shard(ctx, shard):
         k = rng.choice(KS) if rng.random() < 0.7 else rng.randint(0, 400)
         n = rng.choice(NS) if rng.random() < 0.7 else rng.randint(0, 200)
         case = {'rows': rows, 'k': k, 'n': n, 'kind': kind}
+        if rng.random() < (0.5 if kind.startswith('annotated') else 0.12):
+            case['scale'] = rng.choice(ODD_SCALES)
+            if kind.startswith('annotated'):
+                case['n'] = n = rng.randint(0, 60)
         ctx.run_case(case)
         if i == 0:
             ctx.sample(case)
@@ -93,10 +147,12 @@ def execute(run):
         shards = [{'name': 'mix-%d' % i, 'n': 2500} for i in range(16)]
         shards += [{'name': 'diag-%d' % i, 'n': 300, 'force': 'diagonal'} for i in range(4)]
         shards += [{'name': 'circ-%d' % i, 'n': 300, 'force': 'circle'} for i in range(4)]
+        shards += [{'name': 'annot-%d' % i, 'n': 600, 'force': 'annotated'} for i in range(4)]
     else:
         shards = [{'name': 'mix-%d' % i, 'n': 6000} for i in range(32)]
         shards += [{'name': 'diag-%d' % i, 'n': 600, 'force': 'diagonal'} for i in range(8)]
         shards += [{'name': 'circ-%d' % i, 'n': 800, 'force': 'circle'} for i in range(8)]
+        shards += [{'name': 'annot-%d' % i, 'n': 2500, 'force': 'annotated'} for i in range(8)]
     shards.insert(0, {'name': 'bundled', 'n': 0, 'force': 'bundled'})
     run.run_shards(binary, shards, extra=extra)
 
